@@ -2,9 +2,12 @@
 (* Validates event traces recorded from the real CallableParallelExecution     *)
 (* (thread back-end, logging queue test double: events are emitted inside the  *)
 (* queue's own mutex, i.e. at the linearization point of each put/get).        *)
-(* A batch of traces with the same (NTasks, NWorkers) is validated per TLC run.*)
+(* A trace covers SEVERAL consecutive executions on one executor object: each   *)
+(* starts with a "start" event (number of tasks, failing tasks, re-raised ones) *)
+(* and ends with "return" or "raise".  A batch of traces with the same NWorkers *)
+(* is validated per TLC run.                                                    *)
 EXTENDS ParallelExec, Json, IOUtils, TLCExt
-Traces == JsonDeserialize(IOEnv.TRACE_FILE)   \* <<[id, fails, reraise, events], ...>>
+Traces == JsonDeserialize(IOEnv.TRACE_FILE)   \* <<[id, events], ...>>
 VARIABLES tid, l
 tvars == <<vars, tid, l>>
 T == Traces[tid]
@@ -14,35 +17,36 @@ ToSet(s) == {s[i] : i \in 1..Len(s)}
 TInit == /\ Init
          /\ tid \in 1..Len(Traces)
          /\ l = 1
-         /\ fails = ToSet(T.fails)
-         /\ reraise = ToSet(T.reraise)
 
-IsEv(e) == l <= Len(T.events) /\ Ev.ev = e /\ l' = l + 1 /\ UNCHANGED tid
+IsEv(name) == l <= Len(T.events) /\ Ev.ev = name /\ l' = l + 1 /\ UNCHANGED tid
 Silent == UNCHANGED <<tid, l>>
 
 \* --- logged steps: the spec action + the logged fields must agree
-TFill      == IsEv("in_put") /\ Ev.i > 0 /\ t <= NTasks /\ Fill /\ Ev.i = t
+\* a new call of execute on the same object: the recorded tasks select the branch of Start
+TStart     == IsEv("start") /\ e < NExec /\ Start /\ nT' = Ev.n
+                 /\ fails' = ToSet(Ev.fails) /\ reraise' = ToSet(Ev.reraise)
+TFill      == IsEv("in_put") /\ Ev.i > 0 /\ t <= nT /\ Fill /\ Ev.i = t
 TSentinel  == IsEv("in_put") /\ Ev.i = 0 /\ w <= NW /\ Sentinels
 TTake      == IsEv("in_get") /\ Ev.w \in Workers /\ Take(Ev.w) /\ cur'[Ev.w] = Ev.i
 TRun       == IsEv("run") /\ Ev.w \in Workers /\ Run(Ev.w) /\ cur[Ev.w] = Ev.i
 TFinish    == IsEv("out_put") /\ Ev.w \in Workers /\ Finish(Ev.w) /\ cur[Ev.w] = Ev.i
                  /\ Ev.ok = (Ev.i \notin fails)
-TCollect   == IsEv("out_get") /\ (nOut # NTasks /\ ~stop) /\ Collect /\ last'.idx = Ev.i /\ last'.ok = Ev.ok
+TCollect   == IsEv("out_get") /\ (nOut # nT /\ ~stop) /\ Collect /\ last'.idx = Ev.i /\ last'.ok = Ev.ok
 \* the callback is part of the Collect step in the code: it must be for the item just collected
 TCallback  == IsEv("callback") /\ pc[0] = "Collect" /\ last.ok /\ last.idx = Ev.i /\ Ev.val = last.val
                  /\ cbLog # <<>> /\ cbLog[Len(cbLog)] = <<Ev.i, Ev.val>> /\ UNCHANGED vars
-TReturn    == IsEv("return") /\ pc[0] = "Done" /\ returned
-                 /\ Len(Ev.out) = NTasks /\ (\A i \in Tasks : Ev.out[i] = ordered[i])
+TReturn    == IsEv("return") /\ pc[0] = "Start" /\ returned
+                 /\ Len(Ev.out) = nT /\ (\A i \in 1..nT : Ev.out[i] = ordered[i])
                  /\ UNCHANGED vars
-TRaise     == IsEv("raise") /\ pc[0] = "Done" /\ raised /\ Ev.i = last.idx /\ UNCHANGED vars
+TRaise     == IsEv("raise") /\ pc[0] = "Start" /\ raised /\ Ev.i = last.idx /\ UNCHANGED vars
 \* --- silent steps (loop exits, join, the final test): no event, bounded by the program counter
-TSilent == Silent /\ \/ (t > NTasks /\ Fill)
-                     \/ (~(nOut # NTasks /\ ~stop) /\ Collect)
+TSilent == Silent /\ \/ (t > nT /\ Fill)
+                     \/ (~(nOut # nT /\ ~stop) /\ Collect)
                      \/ (w > NW /\ Sentinels)
                      \/ Join
                      \/ Raise
 
-TNext == TFill \/ TSentinel \/ TTake \/ TRun \/ TFinish \/ TCollect \/ TCallback \/ TReturn \/ TRaise \/ TSilent
+TNext == TStart \/ TFill \/ TSentinel \/ TTake \/ TRun \/ TFinish \/ TCollect \/ TCallback \/ TReturn \/ TRaise \/ TSilent
 TSpec == TInit /\ [][TNext]_tvars
 
 \* acceptance: furthest event index reached per trace (registers; -workers 1)
